@@ -131,11 +131,31 @@ func OracleC10(tr *Trace) Verdict {
 				if !running(x, t, t+3*p.H) {
 					continue
 				}
+				// ... next to a leader that is itself running throughout: when the lower-priority leader is
+				// stopped inside the window, who follows is an ordinary succession (C06), not a takeover
+				if !running(c.Inst, t, t+3*p.H) {
+					v.Classes = append(v.Classes, "promptness-skipped:leader-stopped-inside-the-window")
+					continue
+				}
 			}
 			if c.ToSeq >= 0 && c.ToT <= t {
 				continue // that term was over before x was there
 			}
 			if t+3*p.H >= tr.End {
+				continue
+			}
+			// "running next to a lower-priority leader": the live record at t is the one of c's term. A
+			// claimant that has already been replaced in the store and has not noticed yet is not the
+			// leader x has to take over from (x may then find, for example, the record its own previous
+			// run left behind, which only its expiry removes).
+			holds := false
+			for _, o := range tr.Ownership(in.Group) {
+				if o.Live() && o.FromT <= t && o.ToT > t && o.LibOK && o.Lib.ID == p.Instances[c.Inst].ID && o.Lib.Token == c.Token {
+					holds = true
+				}
+			}
+			if !holds {
+				v.Classes = append(v.Classes, "promptness-skipped:claimant-no-longer-holds-the-record")
 				continue
 			}
 			ok := false
